@@ -92,6 +92,19 @@ CORPUS = {
         Q_RENAME_WEIGHT, Q_ERRMSG, Q_COMPOUND_ASSIGN,
     ],
     'C02': [
+        ('commitment-powers-step-linear-in-a-doubling-table', 'fire', [(RP, '''            let mut z_even_powers = Scalar::ONE;
+            for minimum_value_promise in minimum_value_promises {
+                z_even_powers *= z_square;
+                let weighted = weight * (-e_square * z_even_powers * y_nm_1);''', '''            let mut z_table = Vec::with_capacity(aggregation_factor);
+            z_table.push(z_square);
+            let mut z_step = z_square;
+            while z_table.len() < aggregation_factor {
+                let shifted = z_table.iter().map(|p| p * z_step).collect::<Vec<Scalar>>();
+                z_table.extend(shifted);
+                z_step *= z_square;
+            }
+            for (minimum_value_promise, z_even_powers) in minimum_value_promises.into_iter().zip(z_table) {
+                let weighted = weight * (-e_square * z_even_powers * y_nm_1);''')], 'R-C02-11'),
         ('commitment-absorption-stops-at-the-first-failure', 'fire', [(TR, '''        for item in &statement.commitments_compressed {
             transcript.append_point(b"Ci", item);
         }''', '''        statement
@@ -164,6 +177,22 @@ CORPUS = {
         Q_REORDER_GUARDS, Q_ERRMSG, Q_RENAME_WEIGHT,
     ],
     'C04': [
+        ('final-messages-absorbed-into-a-clone', 'fire', [(TR, '''        self.transcript.validate_and_append_point(b"A1", a1)?;
+        self.transcript.validate_and_append_point(b"B", b)?;
+
+        // Update the RNG
+        self.transcript_rng = Self::build_rng(self.transcript, self.bytes.as_ref(), self.external_rng);
+
+        // Return the challenge
+        self.transcript.challenge_scalar(b"e")''', '''        let mut updated = self.transcript.clone();
+        updated.validate_and_append_point(b"A1", a1)?;
+        updated.validate_and_append_point(b"B", b)?;
+
+        // Update the RNG
+        self.transcript_rng = Self::build_rng(&updated, self.bytes.as_ref(), self.external_rng);
+
+        // Return the challenge
+        self.transcript.challenge_scalar(b"e")''')], 'R-C04-3'),
         ('points-absorbed-modulo-the-group-order', 'fire', [('src/protocols/transcript_protocol.rs', '''    fn append_point<P: FixedBytesRepr>(&mut self, label: &'static [u8], point: &P) {
         self.append_message(label, point.as_fixed_bytes());''', '''    fn append_point<P: FixedBytesRepr>(&mut self, label: &'static [u8], point: &P) {
         self.append_message(label, curve25519_dalek::scalar::Scalar::from_bytes_mod_order(*point.as_fixed_bytes()).as_bytes());''')], 'R-C04-1'),
